@@ -69,6 +69,14 @@ IndexParams(size) == IF size = 0 THEN None ELSE Some([a |-> Decorate("plain", 0)
 \* uniform_container: the element at the drawn index (0-based index into a 1-based sequence)
 ContainerElement(elems, idx) == elems[idx + 1]
 
+RECURSIVE ContainerAfterWrites(_, _, _)
+\* uniform_container returns references into the container (result_type =
+\* container::to_reference_type<Container>): assigning base+0, base+1, ... through the results of
+\* consecutive draws at positions idxs leaves these values in the container
+ContainerAfterWrites(elems, idxs, base) ==
+  IF idxs = <<>> THEN elems
+  ELSE ContainerAfterWrites([elems EXCEPT ![idxs[1] + 1] = base], Tail(idxs), base + 1)
+
 (* ------------------------------------------------------------------ (sign, magnitude) numbers *)
 IsNum(x) == /\ x.s \in {0, 1}
             /\ \A i \in 1..Len(x.m) : x.m[i] \in 0..255
